@@ -66,6 +66,12 @@ inductive Ty where
   | dict (k t : Ty)                  -- tlb.Hashmap[K,V] written into the current cell (hm_edge; never empty); greedy
   | chain (elem : Ty)                -- wallet.W5ExtendedActions: first element inline, every further one behind a ref
   | highload                         -- wallet.PayloadHighload: HashmapE 16 of (mode:uint8 message:^…), keys 0..n-1
+  | dictAugE (k t x : Ty)            -- tlb.HashmapAugE[K,V,X]: decoded by C05's model; only the empty one can be written
+  | dictAug (k t x : Ty)             -- tlb.HashmapAug[K,V,X] read from the current cell; MarshalTLB: "not implemented"
+  | binTree (t : Ty)                 -- tlb.BinTree[T]: bt_leaf$0 leaf:X | bt_fork$1 left:^ right:^; decode only
+  | custom (id : String) (body aux : Ty)
+      -- a hand-written decoder with flag-dependent layout (`decodeCustom`); `body`: what the reflection codec sees
+      -- (used by the encoder unless the type has its own MarshalTLB); `aux`: a struct listing the component types
   | encErr (id : String)             -- Go MarshalTLB returns "not implemented"; decode side not modelled
   | opaque (id : String)             -- custom codec without a model
 inductive Fields where
